@@ -285,6 +285,19 @@ Proof. intros vs. reflexivity. Qed.
 Lemma u_append_no_state : no_state_like u_append.
 Proof. intros vs. reflexivity. Qed.
 
+Lemma u_decay_no_state : no_state_like u_decay.
+Proof. intros vs. reflexivity. Qed.
+(* the other two library functions are NOT of that kind (for them only the reading from the key's first interval
+   is what the code computes), and all three change the state of a key that is absent from an interval: they show
+   whether the update function is called with [] *)
+Lemma u_history_not_no_state : ~ no_state_like u_history.
+Proof. intros H. specialize (H []). discriminate H. Qed.
+Lemma u_idle_not_no_state : ~ no_state_like u_idle.
+Proof. intros H. specialize (H []). discriminate H. Qed.
+Lemma absent_key_changes_state :
+  u_history [] (VList []) <> VList [] /\ u_idle [] (VInt 0) <> VInt 0 /\ u_decay [] (VInt 3) <> VInt 3.
+Proof. repeat split; discriminate. Qed.
+
 (* state_spec read from interval 1, for such update functions *)
 Lemma state_spec_from_start u kq tail ts k pre b post :
   no_state_like u ->
